@@ -256,9 +256,11 @@ CHECKS_K1 = {
                 "advance inside one handler. Timer-family invariant of debounce: a timer that is still pending is the one of the "
                 "newest element (older ones were cancelled when replaced - SerialDisposable, C26 - and a cancelled timer never fires - "
                 "scheduler contract C28/C30). RE-ENTRANCY: the coupling invariant is also proved at every element handed downstream, "
-                "so a subscriber that calls back into the operator from inside on_next is covered. Not under contract: "
-                "throttle_with_mapper; sample(period) = sample_observable over interval(period) (C35) is covered by the bounded "
-                "native cross-check (timedrun.py, TestScheduler) only.",
+                "so a subscriber that calls back into the operator from inside on_next is covered. throttle_with_mapper_ "
+                "(session 4): per-element family of throttle observables (user function that hands back an observable), identity = the "
+                "generation; the pending element is emitted when the throttle of the NEWEST element first emits or completes, a spent "
+                "member is deaf, mapper / throttle errors end the sequence. Not under contract: sample(period) = sample_observable over "
+                "interval(period) (C35) is covered by the bounded native cross-check (timedrun.py, TestScheduler) only.",
         "technique": "K1 handler refinement in virtual time with timer families (K1-T), SMT; native TestScheduler replay",
     },
     "C17": {
@@ -283,8 +285,12 @@ CHECKS_K1 = {
                 "first - both orders are covered since every step starts from an arbitrary state. Pending-set assumption used for "
                 "timeout after a switch: the timer that switched was the newest one, older ones having been cancelled when replaced "
                 "(SerialDisposable C26; a cancelled item never runs C28/C30). Induction schema of the K8 lemmas is instantiated by the "
-                "generator, not checked by the solver. NOT under contract: timeout_with_mapper; timeout without a fallback is timeout "
-                "with fallback throw(...) (C37).",
+                "generator, not checked by the solver. timeout_with_mapper_ (session 4, not named in the statement but the same rule): "
+                "first_timeout is a third source, the per-element timeouts a handler family with identity = generation and the ghost "
+                "invariant 1 <= k <= gen, term => k < gen (proved established and preserved); the timeout being watched switches to the "
+                "fallback ONCE (spent-member obligation: found the double switch fixed by the last C17 fix commit). Subscribe-phase order: "
+                "timers are set before the source is subscribed (found skip_until_with_time_'s inverse order, fixed). timeout without a "
+                "fallback is timeout with fallback throw(...) (C37).",
         "technique": "K1 handler refinement in virtual time with timer families and loop invariants over recursive sequence functions (K1-T), K8 lemmas by induction, SMT",
     },
     "C22": {
@@ -898,9 +904,12 @@ CHECKS = {
                 "parameters; output timing is part of the per-event clause.",
         "note": _K1_NOTE + " Under contract: map, filter (plain/indexed), take, skip, take_while (plain/indexed/inclusive), skip_while, "
                 "distinct_until_changed, pairwise, default_if_empty, ignore_elements, take_last, skip_last, take_last_buffer, "
-                "element_at(_or_default), find/find_index, pluck, starmap, materialize, dematerialize. NOT covered by this claim: distinct "
-                "(its HashSet scans a symbolic list with a user comparer - needs a quantified loop invariant that is not written yet) "
-                "and start_with (concat of from_iterable - waits for the C10/C37 contracts).",
+                "element_at(_or_default), find/find_index, pluck, starmap, materialize, dematerialize, and (session 4) distinct: the scan of "
+                "the lookup list by a user comparer that may raise is a for-loop cut at the invariant 'what the scan answers for the whole "
+                "list is what it answers for the part not visited yet', over a recursive function of the list (match_code / match_exc, "
+                "defining equations by head / tail over the SAME uninterpreted symbols the comparer's calls use, instantiated on the ground "
+                "terms); early return and raise leave the loop into the caller. start_with is decided in C10's unit (seqcomp.py: start_with_ "
+                "hands concat the values followed by the source; concat's engine contract; from_iterable's C37 contract), not here.",
         "technique": "K1 handler refinement against spec machines, loop invariants, SMT (z3 then cvc5); native replay of counter-models",
     },
 }
